@@ -33,10 +33,10 @@ THEOREMS = [
     'CC.C06_unique', 'CC.C06_symm', 'CC.C06_ref_indep', 'CC.C06_same_node_zero',
     'CC.C06_across_ideal_vs_zero', 'CC.C06_port_equation', 'CC.C06_thevenin', 'CC.C06_norton',
     'CC.C06_parallel', 'CC.C06_series', 'CC.C06_impl_early_correct', 'CC.C06_impl_eq_spec',
-    'CC.C06_floating_island_counterexample',
+    'CC.C06_floating_island_counterexample', 'CC.C06_exists',
+    'CC.C06_port_invariant_perm', 'CC.C06_port_invariant_rename', 'CC.C06_port_invariant_reverse', 'CC.C06_port_invariant_reref',
 ]
-OPEN_STATEMENTS = ['CC.C06_impl_complete_statement (false for floating groups of nodes: C06_floating_island_counterexample)',
-                   'CC.C06_exists_statement']
+OPEN_STATEMENTS = ['CC.C06_impl_complete_statement (false for floating groups of nodes: C06_floating_island_counterexample)']
 ASSUMPTIONS = [
     'numpy.linalg.solve is a parameter of the model (certificates checked exactly by the driver); binary64 agrees with field arithmetic within 1e-7 relative on instances with cond < 1e8',
     'hand-written model CC/Model/Port.lean is tied to the code by the port_pre / port_z / elem_z / oc_voltage / sc_current / port_sweep correspondence only',
